@@ -1011,8 +1011,8 @@ def judge(case, impl, model):
             msgs.append("emitted text (through the API under test) differs from the model: real "
                         + first_diff(impl["code"], model["text"]))
     # -- the compiled model agrees with the kernel-checked theorem emitted_module_accepted_partial
-    if (model.get("srcOk") and model.get("oracleOk") and model.get("clean") and model.get("nestOk")
-            and model.get("text") is not None and model.get("recog") != "accept"):
+    if (model.get("srcOk") and model.get("oracleOk") and model.get("nestOk")
+            and model.get("text") is not None and (model.get("recog") != "accept" or not model.get("clean"))):
         msgs.append("side conditions of emitted_module_accepted_partial hold but the recogniser answers "
                     + str(model.get("recog")) + " for the model's text")
     # -- the structural recogniser (Sem/PyGram.lean) against CPython's compile
@@ -1165,8 +1165,8 @@ def tags(case, impl, model):
             out.append(f"mutant:{v}/cpython-{'ok' if ok else 'fails'}")
         if o.get("nameIssue"):
             out.append("name-not-identifier")
-        out.append("theorem-side-conditions:" + ("hold" if o.get("srcOk") and o.get("oracleOk") and o.get("clean")
-                                                   and o.get("nestOk") else "excluded"))
+        out.append("theorem-side-conditions:" + ("hold" if o.get("srcOk") and o.get("oracleOk") and o.get("nestOk")
+                                                   else "excluded"))
         for u in sorted(set(o.get("unfaithful", []))):
             out.append("unfaithful:" + u)
         out.append("hostile-sites:%d" % min(3, len([x for x in o.get("sites", []) if re.search(r"['\"\\\n]", x["source"][1:-1])])))
